@@ -10,6 +10,7 @@ import Mercure.Model.BoltStore
 import Mercure.Model.Template
 import Mercure.Model.Form
 import Mercure.Model.Claims
+import Mercure.Model.Token
 import Mercure.Model.Sys
 import Mercure.Model.Timed
 import Mercure.Model.Config
@@ -379,6 +380,14 @@ def step (st : DSt) (line : String) : DSt × String :=
       | some (x, []) => (st, "=" ++ hex x)
       | _ => (st, "none")
     | none => (st, "bad-op")
+  | ["tok.derive", t] =>
+    match unhex t with
+    | some t =>
+      (match TokenBytes.derive t with
+       | .outOfModel => (st, "out-of-model")
+       | .malformed => (st, "malformed")
+       | .ok a _ => (st, s!"ok alg={hex a}"))
+    | none => (st, "bad-op")
   | ["claims.decode", p] =>
     -- json.Unmarshal(payload, &claims{}) by the model's own JSON parser and store rules (Model/Claims)
     match unhex p with
@@ -494,8 +503,27 @@ def step (st : DSt) (line : String) : DSt × String :=
       let c : Claims := { mercure := { publish := pub, subscribe := sub, payload := payload },
                           namespaced := if bool nsPresent then some { publish := nsPub, subscribe := nsSub, payload := nsPayload } else none,
                           exp := exp.toNat? }
+      -- the facts announced by the harness's decoder are checked against the model's own reading of the token's
+      -- bytes (Model/Token + Model/Claims: segmentation, base64url, header alg, claims decoding); a difference is
+      -- answered `tok-mismatch …` (a correspondence break of its own class)
+      let verdict : String :=
+        match TokenBytes.derive t with
+        | .outOfModel => "ok"
+        | .malformed => if bool wf then "tok-mismatch model=malformed harness=well-formed" else "ok"
+        | .ok a d =>
+          if !bool wf then "tok-mismatch model=well-formed harness=malformed"
+          else if a != alg then s!"tok-mismatch alg model={hex a} harness={hex alg}"
+          else if d.mercure.publish != pub || d.mercure.subscribe != sub then "tok-mismatch plain claim lists"
+          else if d.namespaced.isSome != bool nsPresent then "tok-mismatch namespaced claim presence"
+          else if (match d.namespaced with | some m => m.publish != nsPub || m.subscribe != nsSub | none => false) then "tok-mismatch namespaced claim lists"
+          else if (match d.exp, exp.toNat? with
+                   | some (n, false), some ms => n * 1000 != ms
+                   | none, some _ => true
+                   | some (_, false), none => true
+                   | _, _ => false) then s!"tok-mismatch exp harness={exp}"
+          else "ok"
       ({ st with toks := st.toks.insert t { wellFormed := bool wf, alg := alg, sigPub := bool sigPub, sigSub := bool sigSub,
-                                            expOk := bool expOk, nbfOk := bool nbfOk, claims := c } }, "ok")
+                                            expOk := bool expOk, nbfOk := bool nbfOk, claims := c } }, verdict)
     | _, _, _, _, _, _, _, _ => (st, "bad-op")
   | ["authz", role, isPost, hdrs, query, cookie, origin, referer, refOrigin] =>
     match parseAuthReq isPost hdrs query cookie origin referer refOrigin with
